@@ -45,6 +45,7 @@ type upObs struct {
 	Drained           bool   `json:"drained"`
 	ClosedAfterReturn bool   `json:"closedAfterReturn"`
 	Abandoned         bool   `json:"abandoned"` // opened by a dial attempt that was given up
+	Opened            bool   `json:"opened"`    // the upstream server accepted a connection at all
 }
 type crecvObs struct {
 	N      int  `json:"n"`
@@ -61,7 +62,7 @@ type proxyTrace struct {
 	Cdrained bool       `json:"cdrained"`
 	Returned bool       `json:"returned"`
 	RetMs    int        `json:"retMs"`
-	Err      string     `json:"err,omitempty"`
+	Err      string     `json:"err"`
 }
 
 // upstream u's bytes carry u in the high bit so the client can attribute interleaved bytes
@@ -74,6 +75,11 @@ func upStream(u, n int) []byte {
 }
 
 func writeChunks(c net.Conn, b []byte, chunk int) (int, error) {
+	return writeChunksCount(c, b, chunk, nil)
+}
+
+// writeChunksCount also adds every written byte to *count as it goes (so that an observer sees progress)
+func writeChunksCount(c net.Conn, b []byte, chunk int, count *atomic.Int64) (int, error) {
 	sent := 0
 	for sent < len(b) {
 		n := chunk
@@ -82,6 +88,9 @@ func writeChunks(c net.Conn, b []byte, chunk int) (int, error) {
 		}
 		k, err := c.Write(b[sent : sent+n])
 		sent += k
+		if count != nil {
+			count.Add(int64(k))
+		}
 		if err != nil {
 			return sent, err
 		}
@@ -139,6 +148,7 @@ func runProxy(sc proxyScen, idx int) (*proxyTrace, error) {
 				return
 			}
 			s.conn.Store(c)
+			s.obs.Opened = true
 			payload := upStream(u, sc.Usize)
 			var wg sync.WaitGroup
 			// reader: reads until EOF / error, checks the prefix property
@@ -219,12 +229,14 @@ func runProxy(sc proxyScen, idx int) (*proxyTrace, error) {
 			return nil, err
 		}
 		defer aln.Close()
-		dln0, err := net.Listen("tcp", "127.0.0.1:0")
+		// a port that stays reserved and refuses connections (bound, not listening): a port that is merely free
+		// could be taken by a listener of a concurrently running scenario
+		rp, err := newRefusedPort()
 		if err != nil {
 			return nil, err
 		}
-		refused := dln0.Addr().String()
-		dln0.Close()
+		defer rp.Close()
+		refused := rp.Addr()
 		abandoned = &upObs{End: "close", RecvIntact: true, Abandoned: true}
 		go func() {
 			c, err := aln.Accept()
@@ -233,6 +245,7 @@ func runProxy(sc proxyScen, idx int) (*proxyTrace, error) {
 				return
 			}
 			abandonedAccepted.Store(true)
+			abandoned.Opened = true
 			buf := make([]byte, 4096)
 			for {
 				n, err := c.Read(buf)
@@ -354,7 +367,8 @@ func runProxy(sc proxyScen, idx int) (*proxyTrace, error) {
 		}
 		sconn.SetReadDeadline(time.Time{})
 	}
-	tr.Csent = pre
+	var csent atomic.Int64 // bytes the client has written so far (counted as they are written)
+	csent.Store(int64(pre))
 
 	retCh := make(chan error, 1)
 	t0 := time.Now()
@@ -367,17 +381,19 @@ func runProxy(sc proxyScen, idx int) (*proxyTrace, error) {
 	}()
 
 	// client writer
+	writerDone := make(chan struct{})
 	go func() {
+		defer close(writerDone)
 		rest := cstream[pre:]
 		if sc.Via == "route" && len(rest) > 4 {
 			// the first segment ends inside the bytes the route's matcher needs
 			n, _ := cc.Write(rest[:4])
-			tr.Csent += n
+			csent.Add(int64(n))
 			rest = rest[n:]
 			time.Sleep(30 * time.Millisecond)
 			// ... and the second one completes them, whatever the order of the two directions is afterwards
 			n, _ = cc.Write(rest[:8])
-			tr.Csent += n
+			csent.Add(int64(n))
 			rest = rest[n:]
 		}
 		switch sc.Order {
@@ -387,22 +403,18 @@ func runProxy(sc proxyScen, idx int) (*proxyTrace, error) {
 			case <-clientSawEOF:
 			case <-time.After(10 * time.Second):
 			}
-			n, _ := writeChunks(cc, rest, sc.Chunk)
-			tr.Csent += n
+			writeChunksCount(cc, rest, sc.Chunk, &csent)
 			cc.(*net.TCPConn).CloseWrite()
 		case "client_rst":
-			n, _ := writeChunks(cc, rest[:len(rest)/2], sc.Chunk)
-			tr.Csent += n
+			writeChunksCount(cc, rest[:len(rest)/2], sc.Chunk, &csent)
 			time.Sleep(20 * time.Millisecond)
 			reset(cc)
 		case "client_close":
-			n, _ := writeChunks(cc, rest, sc.Chunk)
-			tr.Csent += n
+			writeChunksCount(cc, rest, sc.Chunk, &csent)
 			time.Sleep(20 * time.Millisecond)
 			cc.Close()
 		default:
-			n, _ := writeChunks(cc, rest, sc.Chunk)
-			tr.Csent += n
+			writeChunksCount(cc, rest, sc.Chunk, &csent)
 			cc.(*net.TCPConn).CloseWrite()
 		}
 	}()
@@ -417,6 +429,12 @@ func runProxy(sc proxyScen, idx int) (*proxyTrace, error) {
 	}
 	tr.RetMs = int(time.Since(t0) / time.Millisecond)
 	sconn.Close() // what Server.handle does after the handler returned
+	// the client's writer ends once its connection is closed by the other side at the latest
+	select {
+	case <-writerDone:
+	case <-time.After(5 * time.Second):
+	}
+	tr.Csent = int(csent.Load())
 	// every upstream connection must now be closed: the servers' readers end
 	for _, s := range ups {
 		select {
